@@ -1,7 +1,7 @@
 (* C17 — property theorems only: pinned statement, `exact`, Print Assumptions. *)
 From Coq Require Import List NArith Bool.
 Import ListNotations.
-From L4 Require Import Common.FSRoll Model.Rolling Proofs.Rolling.
+From L4 Require Import Common.FSRoll Common.LockSerial Model.Rolling Proofs.Rolling Proofs.RollingStream Proofs.RollingConc.
 Local Open Scope N_scope.
 
 (* A lifetime = an appender built (append or truncate mode) over the directory
@@ -51,6 +51,69 @@ Theorem C17_build_file :
 Proof. intros a f n. destruct (build_spec a f n) as (_ & F & _ & _ & L & _). split; assumption. Qed.
 Print Assumptions C17_build_file.
 
+(* A whole lifetime, any roller (delete and count 0 included): if any record
+   arrives, exactly one rotation iff the file at build time holds >= min_size
+   bytes; the active file then holds exactly the new records (the first record
+   started a fresh file), otherwise the old content followed by them; the
+   archives are those of one `roll` of the build-time directory, or untouched. *)
+Theorem C17_startup_lifetime :
+  forall m rl s a rs,
+    let c := {| trig := TStartup m; roll_by := rl |} in
+    reach c s ->
+    let s0 := fst (build a (files s) (consults s)) in
+    let big := m <=? disk_len (files s0) in
+    let s' := fst (run_ops c (map Append rs) s0) in
+    rs <> [] ->
+    rolls (concat (snd (run_ops c (map Append rs) s0))) = (if big then 1 else 0)%nat
+    /\ lookup (files s') Active
+       = Some ((if big then [] else content (files s0) Active) ++ concat (map (@concat N) rs))
+    /\ (forall i, lookup (files s') (Arch i)
+        = lookup (if big then do_roll rl (files s0) else files s0) (Arch i)).
+Proof. exact startup_lifetime. Qed.
+Print Assumptions C17_startup_lifetime.
+
+(* The first records arrive simultaneously from any number of threads
+   (thread t appends `progs t`; `append` = Acquire; append_micro; Release, see
+   Common/LockSerial.v), under EVERY schedule, once all calls have returned:
+   the lock order interleaves the threads' programs; at most one rotation; if
+   any record was appended: one rotation iff the build-time file holds >=
+   min_size bytes, it is requested by the call that acquired the lock first
+   (evs1 = that call's events) and by no later one; every record of every
+   thread is in the active file, in lock order, after nothing (rolled) or after
+   the old content (not rolled). *)
+Theorem C17_concurrent_first_appends :
+  forall m rl s a (progs : nat -> list (list bytes)) sch,
+    let c := {| trig := TStartup m; roll_by := rl |} in
+    reach c s ->
+    let s0 := fst (build a (files s) (consults s)) in
+    let st := run_sched sh (list bytes) (append_micro c) sch (init sh (list bytes) progs (s0, [])) in
+    all_done sh (list bytes) st ->
+    let order := acq sh (list bytes) st in
+    let final := fst (shared sh (list bytes) st) in
+    let big := m <=? disk_len (files s0) in
+    is_merge (list bytes) progs order
+    /\ (rolls (snd (shared sh (list bytes) st)) <= 1)%nat
+    /\ (order <> [] ->
+        rolls (snd (shared sh (list bytes) st)) = (if big then 1 else 0)%nat
+        /\ (exists evs1 rest, snd (shared sh (list bytes) st) = evs1 ++ rest
+              /\ evs1 = snd (append_op c (snd (hd (0%nat, []) order)) s0)
+              /\ rolls evs1 = (if big then 1 else 0)%nat /\ rolls rest = 0%nat)
+        /\ lookup (files final) Active
+           = Some ((if big then [] else content (files s0) Active)
+                   ++ concat (map (@concat N) (map snd order)))
+        /\ (forall i, lookup (files final) (Arch i)
+            = lookup (if big then do_roll rl (files s0) else files s0) (Arch i))).
+Proof. exact concurrent_first_appends. Qed.
+Print Assumptions C17_concurrent_first_appends.
+
+(* the critical section executed alone is exactly `append` of the model *)
+Theorem C17_critical_section_is_append :
+  forall c chunks s l,
+    run_micro sh (append_micro c chunks) (s, l)
+    = (fst (append_op c chunks s), l ++ snd (append_op c chunks s)).
+Proof. exact append_micro_seq. Qed.
+Print Assumptions C17_critical_section_is_append.
+
 (* Non-vacuity: min_size 2 over "abc": first append rolls, later ones do not; after
    a restart over 2 bytes it rolls again, after one over 1 byte it does not; min_size 0 in truncate mode rolls the empty file. *)
 Example C17_example :
@@ -67,3 +130,19 @@ Example C17_example_min0_truncate :
   map (fun n => lookup (files (fst r)) n) [Active; Arch 1] = [Some [49]; Some []]
   /\ map rolls (snd r) = [0;1]%nat.
 Proof. vm_compute. split; reflexivity. Qed.
+
+(* three threads race for the first append over a 3-byte file, min_size 3:
+   thread 2 wins the lock, its call rolls, the others do not *)
+Example C17_example_threads :
+  let c := {| trig := TStartup 3; roll_by := Window 1 2 |} in
+  let s0 := fst (build true [(Active, [97;98;99])] 0) in
+  let progs := fun t => match t with 0%nat => [[[65]]] | 1%nat => [[[66]]] | 2%nat => [[[67]]] | _ => [] end in
+  let st := run_sched sh (list bytes) (append_micro c)
+              (2 :: 0 :: 1 :: repeat 2 6 ++ repeat 1 7 ++ repeat 0 7)%nat (init sh (list bytes) progs (s0, [])) in
+  map fst (acq sh (list bytes) st) = [2; 1; 0]%nat
+  /\ owner sh (list bytes) st = None
+  /\ map (fun t => length (todo sh (list bytes) (threads sh (list bytes) st t))) [0;1;2;3]%nat = [0;0;0;0]%nat
+  /\ map is_roll (snd (shared sh (list bytes) st)) = [true; false; false; false; false; false]
+  /\ map (fun n => lookup (files (fst (shared sh (list bytes) st))) n) [Active; Arch 1; Arch 2]
+     = [Some [67;66;65]; Some [97;98;99]; None].
+Proof. vm_compute. repeat split; reflexivity. Qed.
